@@ -31,7 +31,7 @@ META = {
               "ratio 1 (equal width), sparse, dense ratio 2, 4, 8 and 16",
     "outside": "more than 4 live ranges; the numeric alignment rule of dense windows (excluded by the property); "
                "acceptance completeness (a legal call being refused) is not part of the statement",
-    "assumptions": ["module globals isinstance/range of amaranth_soc.memory rebound to proxies-aware versions while a "
+    "assumptions": ["module globals isinstance/range/int of amaranth_soc.memory rebound to proxies-aware versions while a "
                     "symbolic path runs; bisect/sorted/dict are the real C implementations",
                     "cursor observed through align_to(0), which is idempotent with respect to later placements"],
     "rule": "one evaluation = one solver query (branch feasibility, obligation or replay model); distinct_nontrivial = "
